@@ -273,6 +273,21 @@ func (a *verifC02Archive) setBlocktimeIndex(window uint64) {
 	a.e.blocktimeindex = blocktimeindex.NewIndexer(a.lo(), a.lo()+window-1, window)
 }
 
+// reloadBlocktimeIndexFromFile replaces the epoch's block-time index by the one read back from its
+// file form (real MarshalBinary -> FromBytes), as NewEpochFromConfig loads it. Recorded values must
+// be in [0, 2^32) (the writer refuses others).
+func (a *verifC02Archive) reloadBlocktimeIndexFromFile() {
+	data, err := a.e.blocktimeindex.MarshalBinary()
+	if err != nil {
+		panic(err)
+	}
+	idx, err := blocktimeindex.FromBytes(data)
+	if err != nil {
+		panic(err)
+	}
+	a.e.blocktimeindex = idx
+}
+
 // ---------------------------------------------------------------------------------------------
 // cuts (the real methods are renamed to verifOrig_* in the overlay)
 
